@@ -105,8 +105,8 @@ func runC08Lock(c *Ctx, r *Rng) {
 		return
 	}
 	s.Timeout = 3 * time.Second
-	w.log().Pre = func(kind string) {
-		if kind == "flush" {
+	w.log().Pre = func(e *Ev) {
+		if e.Kind == "flush" {
 			hook("rep.flush", "")
 		}
 	}
